@@ -1204,3 +1204,9 @@ pub(crate) fn k_autocorrelate_accepts_documented_orders() {
     let e0 = (a as i32 * a as i32 + if n > 1 { b as i32 * b as i32 } else { 0 }) as f64;
     vk_assert!(r[0] == e0, "lag 0 is the energy of the window");
 }
+
+// ------------------------------------------------------------------ correlate_channels_exhaustive (C01 / C02): NOT under contract
+// A harness was built (encode_subframe replaced by a recorder of the channel it is asked to code, outputs of arbitrary size, the
+// two outputs handed back identified by address) and removed: it verified, but cover statements showed that no path on which
+// LeftSide or SideRight is chosen survives Kani's allocator model (the failing __rust_dealloc checks cut them), so the
+// obligation was vacuous for exactly the arms it was meant to decide.  A vacuous obligation is worse than none.
